@@ -32,7 +32,8 @@ CHECKS = {
              "goroutine), under the reduced next-state relation for all and under ALL interleavings for the networks that fit, where "
              "the terminal state must be unique (determinacy) and equal to the reduced run's; EMA/RMA/SMMA units verified in "
              "isolation under all interleavings. The same instances run on the real code in timer-free child processes: hangs are "
-             "reported by the Go runtime's deadlock detector, leaks by a goroutine census; thorough tier adds GOMAXPROCS x pacing "
+             "reported by the Go runtime's deadlock detector, leaks by a goroutine census; real outputs of the same instance are compared "
+             "across input channel capacities (needs no model); thorough tier adds GOMAXPROCS x pacing "
              "sweeps with bit-for-bit output comparison.",
         design_ref="DESIGN.md 2.1, 3.4, 5 (C03), 8", note=PIPE_NOTE,
         technique="TLC model checking (all interleavings / ample-set reduction) of recorded process networks + real executions "
@@ -132,7 +133,8 @@ CHECKS = {
         text="spec/Backtest.tla: Begin; W workers each Take -> GetSince -> AssetBegin -> Write x strategies -> AssetEnd; End after the "
              "wait group; report state mutated in separate steps (DataRace reachable when unlocked); the ranking comparator on a "
              "fixed-point lattice. TLC checks ExactlyOnce, ProtocolOrder, SameForAnyW over all interleavings (W 1..3, assets the "
-             "repository lacks), Termination under fairness, WeakOrder/RankingOK of the comparator, and emits arrangements a "
+             "repository lacks; one report object serving two runs in a row - Again, ResetOnBegin variant refuted), Termination under "
+             "fairness, WeakOrder/RankingOK of the comparator, and emits arrangements a "
              "truncating comparator leaves unranked. Backtest.Run runs with a recording Report (call log validated by TLC, "
              "BacktestTrace.tla; outcomes compared with direct evaluation on the look-back window), DataReport and HTMLReport (rows "
              "of <asset>.html / index.html parsed: one row per pair, ranking order, best entry) for W in {1,2,4,16}, and under the Go "
@@ -193,7 +195,7 @@ CHECKS["C19"] = dict(
          "would index out of range) and the JSON stream reader at token level (truncation anywhere, wrong top-level value, wrong "
          "element type, garbage). TLC evaluates NeverPanics / JsonPrefixOK and enumerates every case (14k quick) with the rows of "
          "the well-formed prefix; each is rendered to bytes 4 / 2 ways and fed to the real ReadFromReader / JSONToChan in a "
-         "timer-free child (panic -> child dies, hang -> Go deadlock detector, leaks -> census); 9 HTTP statuses x 13 bodies run "
+         "timer-free child (panic -> child dies, hang -> Go deadlock detector, leaks -> census); 9 HTTP statuses x 19 bodies (incl. arrays whose elements are null / scalars / arrays) run "
          "against TiingoRepository through an in-process server.",
     design_ref="DESIGN.md 2.5, 5 (C19)",
     note="Trusted: TLC, the renderings, the child-process protocol. Arbitrary byte strings are reached only through renderings of the "
